@@ -43,6 +43,10 @@ def ownErs (d : EDS) (all : List ERS) : List ERS :=
 
 def lastWhere {α} (p : α → Bool) (l : List α) : Option α := (l.filter p).getLast?
 
+/-- number of nodes the pods of template `t` can be scheduled on (`countTargetedNodes`; the
+generators never set `spec.selector`, which the Go code would additionally apply to the node list). -/
+def targetedCount (t : Template) (nodes : List Node) : Int := (nodes.filter (fit t)).length
+
 structure UpdOut where
   status : EDSStatus
   /-- spec.template is replaced by the template of this replica set -/
@@ -76,7 +80,9 @@ def updateInstance (d : EDS) (current upToDate : ERS) (cur rdy avail : Int) (now
       | some nb =>
         let curNodes := match st.canary with | some cs => cs.nodes | none => []
         if nb != curNodes.length then
-          match selectNodes upToDate.template c d.status.desired curNodes pods nodes with
+          -- the request is resolved against the nodes the EDS targets, counted from the node list
+          -- (F14 repair: status.desired is transiently inflated while a canary starts)
+          match selectNodes upToDate.template c (targetedCount upToDate.template nodes) curNodes pods nodes with
           | .ok (sel, short) =>
             let st := { st with canary := st.canary.map (fun cs => { cs with nodes := sel }) }
             { status := st, restoreFrom := restore, annotations := d.annotations, selectErr := short }
